@@ -59,6 +59,8 @@ class JacWorld(World):
             self.jac_peers[op["tag"]] = J
             d.jac = J
             self.attached = op["tag"]
+        elif k == "set_order":
+            d.set_jac_base_order(op["order"])       # public knob of the finite-difference estimate; no effect while a user Jacobian is attached
         elif k == "unhook":
             d.unhook_jacobian_call()
             # model: the user Jacobian is detached; an rhs that itself carries .jac is picked up again on the next request
@@ -191,8 +193,10 @@ class C16(Prop):
             elif x < 0.78:
                 tag += 1
                 ops.append({"op": "assign", "tag": "J%d" % tag})
-            elif x < 0.92:
+            elif x < 0.90:
                 ops.append({"op": "unhook"})
+            elif x < 0.92:
+                ops.append({"op": "set_order", "order": r.choice([3, 5, 7])})
             elif x < 0.94:
                 ops.append({"op": "call", "t": gen.rnd(r, -5, 5, 3), "y": [gen.rnd(r, -1, 1, 3) for _ in range(N)]})
             elif x < 0.975:
